@@ -38,10 +38,20 @@ TIME_BUDGET = {'quick': 60, 'thorough': 600}
 
 
 def make_model(rng, n_cond):
-    kind = gen.pick(rng, ['fixed', 'weighted'])
+    kind = gen.pick(rng, ['fixed', 'weighted', 'fixed_stack', 'interpolate'])
     basis = gen.rdm_vectors(rng, 3, n_cond, 'eucl')
     if kind == 'fixed':
         return ModelFixed('fx', RDMs(basis[:1].copy())), None, basis[0], kind
+    if kind == 'fixed_stack':
+        # a fixed model built from several RDMs predicts their mean (ModelFixed documents this)
+        return ModelFixed('fs', RDMs(basis.copy())), None, basis.mean(axis=0), kind
+    if kind == 'interpolate':
+        from rsatoolbox.model import ModelInterpolate
+        j = int(rng.integers(2))
+        theta = np.zeros(3)
+        theta[j] = float(rng.uniform(0.2, 0.8))
+        theta[j + 1] = 1 - theta[j]
+        return ModelInterpolate('ip', RDMs(basis.copy())), theta, theta @ basis, kind
     theta = rng.uniform(0.2, 2.0, size=3)
     return ModelWeighted('wt', RDMs(basis.copy())), theta, theta @ basis, kind
 
@@ -73,6 +83,15 @@ def run_case(ctx):
         cond_vec = cond_vec[rng.permutation(len(cond_vec))]
     sig['order'] = order
     labels = [int(c) for c in cond_vec]
+    # condition labels in a condition VECTOR are arbitrary codes (1-based, experiment codes, non-integers): the k-th
+    # smallest label is the k-th condition of the model
+    coding = gen.pick(rng, ['zero_based', 'zero_based', 'one_based', 'codes', 'fractional']) if cond_input == 'vector' \
+        else 'zero_based'
+    code = {'zero_based': lambda k: k, 'one_based': lambda k: k + 1, 'codes': lambda k: 10 * k + 3,
+            'fractional': lambda k: k + 0.5}[coding]
+    sig['coding'] = coding
+    if coding != 'zero_based':
+        cond_vec = np.array([code(int(c)) for c in cond_vec])
     arg = cond_vec if cond_input == 'vector' else np.eye(n_cond)[labels]
     wit = lambda **k: dict(pred=pred, theta=theta, n_channel=n_ch, n_part=n_part, n_sim=n_sim, signal=signal,  # noqa
                            cond_input=cond_input, **k)
@@ -102,8 +121,9 @@ def run_case(ctx):
         iu = np.triu_indices(n_cond, 1)
         for col, (a, b) in enumerate(zip(iu[0], iu[1])):
             want = signal * pred[col]
-            g = got[frozenset((float(a), float(b)))][0] if frozenset((float(a), float(b))) in got else \
-                got[frozenset((a, b))][0]
+            ka, kb = code(int(a)), code(int(b))
+            g = got[frozenset((float(ka), float(kb)))][0] if frozenset((float(ka), float(kb))) in got else \
+                got[frozenset((ka, kb))][0]
             if not close(g, want, 1e-4, 1e-9 * (1 + abs(want))):
                 ctx.fail('exact_signal_rdm', dict(sig, what='rdm'), f'simulation {s}: distance between conditions {a},{b} '
                          f'is {g!r}, signal x model RDM = {want!r}', wit(sim=s))
